@@ -583,6 +583,8 @@ class SimSocket(_Named):
         if self.closed:
             _sync('socket.send', self.simname)
             raise OSError(9, 'Bad file descriptor')
+        if getattr(self, 'wr_shut', False):
+            raise BrokenPipeError(32, 'Broken pipe')
         sizes = self.net.next_chunks(len(data))
         off = 0
         for n in sizes:
@@ -612,32 +614,84 @@ class SimSocket(_Named):
     def recv(self, n, flags=0):
         if self.closed:
             raise OSError(9, 'Bad file descriptor')
-        if not self.rx and not (self.peer is None or self.peer.closed):
+        if not self.rx and not self._peer_gone():
             tmo = getattr(self, '_timeout', None)
             if tmo is not None and tmo <= 0:
                 raise BlockingIOError(11, 'Resource temporarily unavailable')
             # a socket with a timeout (settimeout) waits like any timed wait: the timeout may expire however long the peer
             # takes - "however long any one thread is delayed" includes "longer than any timeout" (Kernel.eager_timeouts)
-            timed = _sync('socket.recv', self.simname, pred=lambda: len(self.rx) > 0 or self.peer.closed or self.closed,
+            timed = _sync('socket.recv', self.simname, pred=lambda: len(self.rx) > 0 or self._peer_gone() or self.closed,
                           timeout_ok=tmo is not None, yielding=tmo is not None)
             if self.closed:
                 raise OSError(9, 'Bad file descriptor')
-            if timed and not self.rx and not self.peer.closed:
+            if timed and not self.rx and not self._peer_gone():
                 raise TimeoutError('timed out')
         out = bytes(self.rx[:n])
         del self.rx[:n]
         return out
 
+    def _peer_gone(self):
+        """End-of-stream for this side: no peer, peer closed for real, or peer shut down its writing direction."""
+        return self.peer is None or self.peer.closed or getattr(self.peer, 'wr_shut', False)
+
     def close(self):
-        if self.closed:
+        # as socket.socket.close(): with file objects from makefile() still open the descriptor stays open (no end-of-stream
+        # for the peer) until the last of them is closed
+        if self.closed or getattr(self, '_py_closed', False):
             return
         _sync('socket.close', self.simname)
+        self._py_closed = True
+        if getattr(self, '_io_refs', 0) <= 0:
+            self._real_close()
+
+    def _real_close(self):
         self.closed = True
         if self.listening and self.net.listeners.get(self.addr) is self:
             del self.net.listeners[self.addr]
 
+    def makefile(self, mode='r', buffering=None, *, encoding=None, errors=None, newline=None):
+        import io
+        sock = self
+        sock._io_refs = getattr(sock, '_io_refs', 0) + 1
+
+        class Raw(io.RawIOBase):
+            def readable(self):
+                return 'r' in mode
+
+            def writable(self):
+                return 'w' in mode
+
+            def readinto(self, b):
+                d = sock.recv(len(b))
+                b[:len(d)] = d
+                return len(d)
+
+            def write(self, b):
+                sock.sendall(bytes(b))
+                return len(b)
+
+            def close(self):
+                if self.closed:
+                    return
+                io.RawIOBase.close(self)
+                sock._io_refs -= 1
+                if sock._io_refs <= 0 and getattr(sock, '_py_closed', False) and not sock.closed:
+                    _sync('socket.close', sock.simname)
+                    sock._real_close()
+        raw = Raw()
+        if buffering == 0:
+            return raw
+        f = io.BufferedRWPair(raw, raw) if ('r' in mode and 'w' in mode) else io.BufferedWriter(raw) if 'w' in mode else io.BufferedReader(raw)
+        return f if 'b' in mode else io.TextIOWrapper(f, encoding=encoding, errors=errors, newline=newline)
+
     def shutdown(self, how):
-        self.close()
+        # SHUT_RD = 0, SHUT_WR = 1, SHUT_RDWR = 2: the writing direction ends (the peer reads end-of-stream after what was
+        # sent), reading what the peer still sends stays possible
+        if self.closed:
+            raise OSError(9, 'Bad file descriptor')
+        _sync('socket.shutdown', self.simname)
+        if how in (1, 2):
+            self.wr_shut = True
 
     def settimeout(self, t):
         self._timeout = t
